@@ -229,3 +229,18 @@ prop("C14",
      assumptions=["io.Pipe rendezvous semantics, bufio/xml flushing and gzip's sticky error are modelled, not verified; scheduler fairness is assumed (the watchdog observes it)",
                   "for W > 7 the in-Coq exploration is replaced by the proved prediction (err iff k < W)"],
      note="Trusted: Coq kernel + vm_compute (exhaustive exploration of small instances); correspondence harness (failing writer, watchdog, runtime.Stack leak detector). Modelled not verified: io.Pipe, bufio.Reader.ReadString, encoding/xml flush points, compress/gzip, the Go scheduler.")
+
+prop("C08",
+     axioms="reals",
+     design_ref="DESIGN.md section 5 C08",
+     technique="Rocq proof about the sample-table walk for all tables (each sample once, sizes, contiguous media-time intervals; offset formula and bounds) + in-Coq correspondence on MP4 files synthesised with mp4ff for every kind of valid layout and for hostile tables",
+     text="Theorems about the Gallina port of Decoder.Decode/decodeTrak/offsets (after the repair D14): for any tables a successful walk returns exactly the declared samples, "
+          "k-th with the k-th stsz size, media-time intervals contiguous from 0 in presentation order; reading i of n gets start+i*(end-start)/n, starting at the sample's "
+          "start, never decreasing, inside its own interval; no GoPro metadata track = error.  Tied to the code by decoding synthesised MP4s (all compositions into chunks, "
+          "minimal/redundant stsc runs, stts run splits, shuffled chunk placement, stco/co64, 6 timescales, other tracks) and comparing the whole tree and every reading's offset.",
+     rule="one case = one synthesised MP4: 1-6 samples (thorough 9) each a DEVC payload with GPS5 (0-4 readings) and optionally another sensor, random composition into chunks of 1-3 samples, "
+          "stsc minimal or one entry per chunk, random deltas with merged or unmerged stts runs (+ empty trailing run), chunks placed in random order with gaps, stco/co64, timescale in "
+          "{1,600,1000,30000,90000,1e9}, video track before or after; plus no-meta-track/other-handler files; plus 150 hostile table mutations (verdict S if only the ok/error class differs); "
+          "distinct = distinct JSON input; non-trivial = at least one sample",
+     assumptions=["box parsing is mp4ff's: the tables handed to the model are the ones the harness wrote", "uint64/int64 wrap-around is modelled; durations beyond int64 are outside the property"],
+     note=GPMF_NOTE + " MP4 container parsing (mp4ff) is assumed.")
